@@ -45,6 +45,34 @@ func emit611(t thrift.Type, b []byte, p []Step) {
 	out.emit(611, f...)
 }
 
+// 616: the single-step accessors (Node.Index / Field / GetByStr / GetByInt) on a container whose header is intact and whose
+// elements are cut: same fields as 611 with a one-step path; the judged observable is "found span inside the buffer"
+func emit616(t thrift.Type, b []byte, st Step) {
+	if len(b) == 0 {
+		return
+	}
+	f := []string{fi(int(t)), fx(b)}
+	f = append(f, pathFields([]Step{st})...)
+	obs := panicObs
+	noPanic(func() {
+		n := generic.NewNode(t, b)
+		var v generic.Node
+		switch st.Kind {
+		case 1:
+			v = n.Field(thrift.FieldID(st.N))
+		case 2:
+			v = n.Index(int(st.N))
+		case 3:
+			v = n.GetByStr(string(st.B))
+		default:
+			v = n.GetByInt(int(st.N))
+		}
+		obs = observe(b, v)
+	})
+	f = append(f, obs...)
+	out.emit(616, f...)
+}
+
 // t2j on arbitrary bytes: same fields as check 304, id 612 (the text is not needed: ok/err only)
 func emit612(desc *thrift.TypeDescriptor, dfs []string, tb []byte, opts int) {
 	co := conv.Options{
@@ -127,6 +155,31 @@ func genC06b(r *rng, n int) {
 			for k := 0; k < 2; k++ {
 				if p := m.paths[rr.intn(len(m.paths))]; len(p) > 0 { // the empty path hands back the node itself, unread
 					emit611(thrift.STRUCT, in.b, p)
+				}
+			}
+		}
+	}
+	// ---- 616: single-step accessors on truncated containers with intact headers
+	_, cvals := c06Containers(r.fork())
+	for _, cv := range cvals {
+		t := thrift.Type(0)
+		switch {
+		case len(cv.b) > 0 && cv.msg < 12:
+			t = []thrift.Type{thrift.LIST, thrift.SET}[cv.msg%2]
+		case cv.msg == 12 || cv.msg == 13:
+			t = thrift.MAP
+		default:
+			t = thrift.LIST
+		}
+		for k := 1; k <= len(cv.b); k++ {
+			b := cv.b[:k]
+			switch t {
+			case thrift.MAP:
+				emit616(t, b, Step{Kind: 3, B: []byte("k3")})
+				emit616(t, b, Step{Kind: 4, N: 3})
+			default:
+				for _, i := range []int64{0, 1, 3, 4, 6} {
+					emit616(t, b, Step{Kind: 2, N: i})
 				}
 			}
 		}
